@@ -267,6 +267,17 @@ func (idx *HNSWIndex) Add(vector VectorNode) error {
 		}
 	}
 
+	// A soft-deleted entry point cannot anchor new links: insertNode only links to
+	// live vertices, so with every reachable vertex tombstoned the new vertex would
+	// be linked to nothing and stay unreachable. Purge tombstones first; Flush
+	// re-elects a live entry point (or empties the index).
+	if idx.deletedNodes.Contains(idx.entryPoint) {
+		if err := idx.flushLocked(); err != nil {
+			idx.mu.Unlock()
+			return err
+		}
+	}
+
 	// Assign ID if needed (inside lock to ensure uniqueness)
 	if id == 0 {
 		id = idx.nextID
